@@ -42,10 +42,15 @@ def entries():
         return repr(OffsetDateTime(LocalDateTime(2024, 5, 6, 7, 8, 9), Offset.from_hours_and_minutes(h, m)).to_aware_datetime())
     e["stdlib-bridges"] = (lambda: (_aware(-5), _aware(5, 30), repr(LocalDate(2024, 2, 29).to_date()), repr(Instant.from_unix_time_seconds(1).to_datetime_utc())),
                            lambda: (_aware(9), _aware(-9, -30), _aware(0), repr(LocalDateTime(2024, 2, 29, 1, 2, 3).to_naive_datetime())))
+    e["text-format-parse"] = (lambda: (LocalDateTimePattern.extended_iso.format(LocalDateTime(2024, 2, 29, 12, 34, 56)), repr(LocalDatePattern.iso.parse("2023-11-30").value),
+                                       repr(LocalDateTimePattern.extended_iso.parse("2024-02-29T12:34:56.25").value)),
+                              lambda: (LocalDatePattern.iso.format(LocalDate(2023, 11, 30)), InstantPattern.extended_iso.format(Instant.from_unix_time_seconds(86400 * 365)),
+                                       repr(OffsetPattern.general_invariant.parse("+05:30").value)))
     return e
 
 
 FILES = {
+    "text-format-parse": ("_local_date_pattern.py", "_local_date_time_pattern.py"),
     "time-unit-arithmetic": ("_time_period_field.py", "_local_date_time.py::plus|plus_hours|plus_minutes|plus_seconds|plus_milliseconds|plus_ticks|plus_nanoseconds", "_local_time.py::plus_hours|plus_minutes"),
     "stdlib-bridges": ("_offset_date_time.py::to_aware_datetime", "_local_date.py::to_date", "_instant.py::to_datetime_utc", "_local_date_time.py::to_naive_datetime"),
     "date-adjusters": ("_date_adjusters.py",),
@@ -60,9 +65,54 @@ FILES = {
 }
 
 
+def _container_snapshot():
+    """sizes of every module-level and class-level list/dict/set/bytearray of the pyoda_time modules (name -> (file, len))"""
+    import sys as _sys
+    snap = {}
+    for mname, mod in list(_sys.modules.items()):
+        if not mname.startswith("pyoda_time") or mod is None:
+            continue
+        fn = getattr(mod, "__file__", None) or ""
+        holders = [(mname, mod)]
+        for k, v in list(vars(mod).items()):
+            if isinstance(v, type) and getattr(v, "__module__", None) == mname:
+                holders.append((mname + "." + k, v))
+                for k2, v2 in list(vars(v).items()):       # one level of nested classes (metaclass-style helpers)
+                    if isinstance(v2, type):
+                        holders.append((mname + "." + k + "." + k2, v2))
+        for hname, h in holders:
+            try:
+                items = list(vars(h).items())
+            except TypeError:
+                continue
+            for k, v in items:
+                if isinstance(v, (list, dict, set, bytearray)) and not k.startswith("__annotations__") and k not in ("__all__", "__path__"):
+                    snap[hname + "." + k] = (fn, len(v), id(v))
+                elif v is None or isinstance(v, (int, str, bool)):
+                    pass
+    return snap
+
+
+def discover(name):
+    """which pyoda_time source files own module/class-level containers that are filled when the entry's two bodies run for the first
+    time (lazily built tables, registries, memo dicts): those files are scheduling points of the first-use exploration"""
+    import os
+    a, b = entries()[name]
+    before = _container_snapshot()
+    a()
+    b()
+    after = _container_snapshot()
+    changed = {}
+    for k, (fn, n, i) in after.items():
+        if k not in before or before[k][1] != n or before[k][2] != i:
+            changed[k] = os.path.basename(fn)
+    return changed
+
+
 def main(argv):
     name, gran, prefix = argv[0], argv[1], json.loads(argv[2])
     sequential = len(argv) > 3 and argv[3] == "sequential"
+    extra_files = tuple(argv[4].split(",")) if len(argv) > 4 and argv[4] else ()
     from vf.core import sched
     sched.install_lock_factory()
     import importlib
@@ -76,9 +126,12 @@ def main(argv):
             pass
     a, b = entries()[name]
     if sequential:
+        if len(argv) > 3 and argv[3] == "sequential" and gran == "discover":
+            print(json.dumps({"lazy_containers": discover(name)}))
+            return 0
         print(json.dumps({"expected": [repr(a()), repr(b())]}))
         return 0
-    s = sched.Sched([a, b], prefix, FILES[name], gran == "opcode")
+    s = sched.Sched([a, b], prefix, tuple(FILES[name]) + tuple(f for f in extra_files if f not in FILES[name]), gran == "opcode")
     try:
         s.run()
     except sched.ReplayDivergence as e:
